@@ -25,6 +25,7 @@ A *spec* is a JSON-able dict (all keys optional except `events`/`widths`):
   stext_raw    str or None -- supplemental TEXT segment written verbatim (may be ill-formed)
   stext_after  bool -- supplemental TEXT segment placed behind DATA instead of in front of it
   stext_first  bool -- supplemental TEXT segment placed in front of the primary TEXT segment
+  in_stext     subset of ['G','V','S'] -- these optional $Pn keywords are written into the supplemental segment
   analysis     [[key, value], ...] or None
   analysis_in  'header' | 'text'
   mode         $MODE value
@@ -108,11 +109,19 @@ def text_pairs(spec, data_begin, data_end, st_begin, st_end, an_begin, an_end):
         pairs.append(('$P%dR' % n, str(ranges[i])))
         for kw, key in (('G', 'png'), ('V', 'pnv'), ('S', 'pns')):
             lst = spec.get(key)
-            if lst and lst[i] is not None:
+            if lst and lst[i] is not None and kw not in moved_to_stext(spec):
                 pairs.append(('$P%d%s' % (n, kw), str(lst[i])))
     over = spec.get('text_over') or {}
     pairs = [(k, over.get(k, v)) for k, v in pairs]
     return pairs
+
+
+def moved_to_stext(spec):
+    """Optional per-parameter keywords ('G', 'V', 'S') that are written into the supplemental TEXT segment instead of
+    the primary one (spec['in_stext']; FCS3.0 and later, and only with a well-formed supplemental segment)."""
+    if spec.get('version', 'FCS3.0') == 'FCS2.0' or spec.get('stext_raw') is not None:
+        return ()
+    return tuple(spec.get('in_stext') or ())
 
 
 def build(spec):
@@ -123,6 +132,13 @@ def build(spec):
     rnd = random.Random(spec['pad_seed']) if spec.get('pad_seed') is not None else None
     data = encode_data(spec)
     stext = spec.get('stext')
+    if moved_to_stext(spec):
+        stext = [list(kv) for kv in (stext or [])]
+        for i in range(len(spec['widths'])):
+            for kw, key in (('G', 'png'), ('V', 'pnv'), ('S', 'pns')):
+                lst = spec.get(key)
+                if lst and lst[i] is not None and kw in moved_to_stext(spec):
+                    stext.append(['$P%d%s' % (i + 1, kw), str(lst[i])])
     analysis = spec.get('analysis')
     st_bytes = encode_pairs(stext, delim, leading=spec.get('stext_leading', True)).encode('latin-1') \
         if stext is not None else b''
